@@ -4,6 +4,7 @@ go 1.23.0
 
 require (
 	github.com/RussellLuo/timingwheel v0.0.0-20220218152713-54845bda3108
+	github.com/anishathalye/porcupine v1.3.0
 	github.com/kercylan98/minotaur v0.0.0
 )
 
